@@ -1967,7 +1967,7 @@ class RecordTensor(ShapedTensor):
                 self.__data = torch.cat(
                     (
                         data[slice(0, ptr), ...],
-                        obs,
+                        obs.to(dtype=data.dtype),
                         data[slice(ptr + length, None), ...],
                     ),
                     0,
